@@ -1751,6 +1751,11 @@ func (s *Netceptor) handleServiceAdvertisement(data []byte, receivedFrom string)
 		return fmt.Errorf("service advertisement has no content")
 	}
 	s.Logger.SanitizedDebug("Received service advertisement from %s\n", si.NodeID)
+	if si.NodeID == s.nodeID {
+		// Our own advertisement coming back from the mesh (flooding round a cycle). We are the authority on our own
+		// services: an echo that arrives after the service was closed must not bring it back.
+		return nil
+	}
 	s.serviceAdsLock.Lock()
 	defer s.serviceAdsLock.Unlock()
 	n, ok := s.serviceAdsReceived[si.NodeID]
